@@ -40,6 +40,7 @@ type sched struct {
 	prefix   []int
 	points   []schedPoint
 	clock    int64
+	begins   []int       // transactions begun by the thread's current operation
 	finished chan string // "" = all threads done, otherwise the reason (deadlock, bad prefix)
 	aborted  bool
 	diverged string
@@ -55,6 +56,7 @@ func newSched(n int, bbolt bool, mode string, prefix []int) *sched {
 	s.started = make([]bool, n)
 	s.pending = make([]vstore.Call, n)
 	s.pendOp = make([]bool, n)
+	s.begins = make([]int, n)
 	for i := range s.pendOp {
 		s.pendOp[i] = true
 	}
@@ -154,8 +156,8 @@ func (s *sched) exit(t int) {
 
 // Scheduling-point granularities.
 const (
-	// ModeReduced: a free choice before every operation is invoked and before every commit of a write
-	// transaction. Sound for stores that isolate uncommitted work and take their snapshot at Begin: switching
+	// ModeReduced: a free choice before every operation is invoked, before every commit of a write
+	// transaction, and before the second and every later Begin inside one operation. Sound for stores that isolate uncommitted work and take their snapshot at Begin: switching
 	// anywhere else only yields histories with earlier calls / later returns, whose real-time constraints are
 	// weaker than those of a schedule that is explored anyway (DESIGN 3.6 E6).
 	ModeReduced = "op+commit"
@@ -250,6 +252,14 @@ func runSchedule(in *drv.Inst, snap []vstore.KV, sc *Scenario, mode string, pref
 		switch s.mode {
 		case ModeReduced:
 			isPoint = c.Kind == vstore.Commit && c.Update && !c.Done
+			if c.Kind == vstore.Begin {
+				// the reduction assumes one transaction per operation; a second (third, ...) transaction inside
+				// one operation opens a window between two snapshots, which must be schedulable
+				s.begins[s.cur]++
+				if s.begins[s.cur] > 1 {
+					isPoint = true
+				}
+			}
 		case ModeTxPoints:
 			isPoint = c.Kind == vstore.Begin || ((c.Kind == vstore.Commit || c.Kind == vstore.Rollback) && !c.Done)
 		default:
@@ -275,6 +285,7 @@ func runSchedule(in *drv.Inst, snap []vstore.KV, sc *Scenario, mode string, pref
 			<-s.wake[t]
 			for _, op := range sc.Threads[t] {
 				s.point(t, vstore.Call{}, true)
+				s.begins[t] = 0
 				call := s.tick()
 				res := drv.Exec(in, op)
 				if res.Leak != "" {
@@ -473,15 +484,50 @@ func (x *execution) preemptionsBefore(i int) int {
 	return n
 }
 
+// schedWorker instances (pre-grown bbolt files, badger arenas) are expensive to create: they are pooled across
+// explorations and left to the process exit (the scratch directory is removed then).
+type schedWorker struct{ in, scratch *drv.Inst }
+
+var (
+	schedPoolMu sync.Mutex
+	schedPool   = map[string][]*schedWorker{}
+)
+
+func acquireSchedWorker(backend string) *schedWorker {
+	schedPoolMu.Lock()
+	if p := schedPool[backend]; len(p) > 0 {
+		w := p[len(p)-1]
+		schedPool[backend] = p[:len(p)-1]
+		schedPoolMu.Unlock()
+		return w
+	}
+	schedPoolMu.Unlock()
+	in := drv.MustOpen(backend)
+	in.OnOpen = pregrowIfBBolt
+	pregrowIfBBolt(in)
+	return &schedWorker{in: in, scratch: drv.MustOpen(backend)}
+}
+
+func releaseSchedWorker(backend string, w *schedWorker) {
+	if w.in.DB == nil {
+		return
+	}
+	schedPoolMu.Lock()
+	schedPool[backend] = append(schedPool[backend], w)
+	schedPoolMu.Unlock()
+}
+
 // SchedExplore enumerates every schedule of the scenario (depth-first over choice sequences, bounded by
 // preemptions when Bound >= 0) and checks each complete execution.
 func SchedExplore(cfg *SchedConfig, run *ev.Run) {
 	sc := cfg.Scenario
 	start := time.Now()
 	// sequential setup, once
-	base := drv.MustOpen(cfg.Backend)
-	base.OnOpen = pregrowIfBBolt
-	pregrowIfBBolt(base)
+	bw := acquireSchedWorker(cfg.Backend)
+	base := bw.in
+	if _, err := base.Fresh(nil); err != nil {
+		panic(err)
+	}
 	init := m.NewDB()
 	for _, o := range sc.Setup {
 		_, next, fs := drv.Step(base, init, o)
@@ -491,7 +537,7 @@ func SchedExplore(cfg *SchedConfig, run *ev.Run) {
 		init = next
 	}
 	snap := base.Dump()
-	base.Close()
+	releaseSchedWorker(cfg.Backend, bw)
 
 	name := fmt.Sprintf("%s/%s/%s", sc.Name, cfg.Backend, cfg.Mode)
 	var mu sync.Mutex
@@ -513,28 +559,21 @@ func SchedExplore(cfg *SchedConfig, run *ev.Run) {
 		run.Violation(fmt.Sprintf("%s|%s|%s", tag, name, outcomeClass(x)), fmt.Sprintf("[%s] %s; schedule %v", name, msg, x.choices),
 			map[string]interface{}{"engine": "sched", "scenario": sc, "backend": cfg.Backend, "points": cfg.Mode, "schedule": x.choices, "history": hist, "final_state": fin, "finding": msg})
 	}
-	type worker struct{ in, scratch *drv.Inst }
-	workers := map[int]*worker{}
-	getW := func(w int) *worker {
+	workers := map[int]*schedWorker{}
+	getW := func(w int) *schedWorker {
 		mu.Lock()
 		defer mu.Unlock()
 		if workers[w] == nil {
-			in := drv.MustOpen(cfg.Backend)
-			in.OnOpen = pregrowIfBBolt
-			pregrowIfBBolt(in)
-			workers[w] = &worker{in: in, scratch: drv.MustOpen(cfg.Backend)}
+			workers[w] = acquireSchedWorker(cfg.Backend)
 		}
 		return workers[w]
 	}
 	defer func() {
 		for _, w := range workers {
-			if w.in.DB != nil {
-				w.in.Close()
-			}
-			w.scratch.Close()
+			releaseSchedWorker(cfg.Backend, w)
 		}
 	}()
-	checkExec := func(w *worker, x *execution) {
+	checkExec := func(w *schedWorker, x *execution) {
 		mu.Lock()
 		schedules++
 		if x.preemptionsBefore(len(x.points)) > 0 {
@@ -586,8 +625,8 @@ func SchedExplore(cfg *SchedConfig, run *ev.Run) {
 		}
 	}
 	// depth-first enumeration; the first levels are expanded sequentially to produce independent subtrees
-	var expand func(w *worker, prefix []int, depthLimit int, out *[][]int)
-	expand = func(w *worker, prefix []int, depthLimit int, out *[][]int) {
+	var expand func(w *schedWorker, prefix []int, depthLimit int, out *[][]int)
+	expand = func(w *schedWorker, prefix []int, depthLimit int, out *[][]int) {
 		if cfg.Budget > 0 && time.Since(start) > cfg.Budget {
 			capped = true
 			return
@@ -619,6 +658,7 @@ func SchedExplore(cfg *SchedConfig, run *ev.Run) {
 		expand(getW(wi), subtrees[i], 0, nil)
 	})
 	pfx := strings.ReplaceAll(name, "/", "_") + "_"
+	run.Set(pfx+"seconds", float64(int(time.Since(start).Seconds()*10))/10)
 	run.Set(pfx+"schedules", schedules)
 	run.Set(pfx+"schedules_with_preemption", withPreempt)
 	run.Set(pfx+"distinct_outcomes", len(outcomes))
